@@ -68,6 +68,21 @@ func init() {
 					// disposable replays, so a read only perturbs where it is an operation)
 					sp.Ops = append(sp.Ops, skRead(0))
 					specs = append(specs, sp)
+					// longer inputs: the same alphabet below macro seeds of 70-140 values
+					// (compacted pages, a buffer beyond its trigger, a grown array, both
+					// sides populated), so that ranks walk across layout boundaries
+					lg := &SketchScenarioSpec{Name: fmt.Sprintf("C01/%s/%s/long", ms, k), Property: "C01", Map: ms, Stores: []Kind{k}, Depth: 2,
+						Checks: []func(*SketchWorld, int) []mc.Fail{checkC01()}, Ops: sp.Ops}
+					if tier == "thorough" {
+						lg.Depth = 3
+					}
+					lg.Seeds = []mc.Seed[*SketchWorld]{
+						skSeed("run-70", skAddRunV(0, 1.0, 70)),
+						skSeed("scattered-both-sides", skAddRunStride(0, 1.0, 40, 3), skAddRunSigned(0, 1.0, 40, 3, -1), skAdd(0, 0)),
+						skSeed("run-70-negative+run-33", skAddRunSigned(0, 1.0, 70, 1, -1), skAddRunV(0, 2.0, 33)),
+						skSeed("duplicates-100", skAddRunStride(0, 5.0, 100, 0)),
+					}
+					specs = append(specs, lg)
 				}
 			}
 			return shardsOfSketchSpecs(specs)
